@@ -2,7 +2,7 @@
 RULE = ('every (entry point, parameter vector, input) inside the bound is executed: parameter vectors = 9 strategies + 16 levels with <= D '
         'deviations over {windowLog, minMatch, hashLog, chainLog, searchLog, targetLength, row finder, LDM, splitter, targetCBlockSize, maxBlockSize, '
         'literal mode, checksum, contentSize, magicless}; inputs = 3 base shapes of K segments with deviations over the LIT/REP/PAD alphabet (same budget D), '
-        'plus a long-length family (literal run or match of 65535..131075 bytes starting at / around a 128 KiB block edge, in blocks with few or ~350 other sequences, once or twice, splitter on/off) and all {a,b} strings of length <= L and a 256-byte text prefix + all {a,b} suffixes; distinct = distinct compressed outputs, non-trivial = output smaller than input')
+        'plus a block-type family (the first 2-3 blocks of the frame each one of 8 characters: three skewed byte alphabets differing in their top symbol, noise, two single-byte runs, words, a 12-symbol alphabet; first block exactly / one short / one over the block size; 8 entry points incl. CDict / loadDictionary), plus a long-length family (literal run or match of 65535..131075 bytes starting at / around a 128 KiB block edge, in blocks with few or ~350 other sequences, once or twice, splitter on/off) and all {a,b} strings of length <= L and a 256-byte text prefix + all {a,b} suffixes; distinct = distinct compressed outputs, non-trivial = output smaller than input')
 
 
 def run(vc, tier):
@@ -11,12 +11,14 @@ def run(vc, tier):
     if tier == 'quick':
         c.run_vx_unit('c01-shapes', src, 'asan', ['--mode', 'rt', '--set', 'shapes', '--K', 4, '--D', 1], share=0.4)
         c.run_vx_unit('c01-longlen', src, 'asan', ['--mode', 'rt', '--set', 'longlen', '--D', 0, '--exec-timeout', 120000], share=0.5)
+        c.run_vx_unit('c01-blocks', src, 'asan', ['--mode', 'rt', '--set', 'blocks', '--D', 0, '--exec-timeout', 60000], share=0.5)
         c.run_vx_unit('c01-ab', src, 'asan', ['--mode', 'rt', '--set', 'ab', '--L', 7, '--D', 0], share=0.5)
         c.run_vx_unit('c01-absuffix', src, 'asan', ['--mode', 'rt', '--set', 'absuffix', '--L', 5, '--D', 0], share=0.9)
     else:
         c.run_vx_unit('c01-shapes', src, 'asan', ['--mode', 'rt', '--set', 'shapes', '--K', 5, '--D', 2], share=0.4)
         c.run_vx_unit('c01-shapes-big', src, 'asan', ['--mode', 'rt', '--set', 'shapes', '--K', 4, '--big', 1, '--D', 1], share=0.3)
         c.run_vx_unit('c01-longlen', src, 'asan', ['--mode', 'rt', '--set', 'longlen', '--D', 1, '--exec-timeout', 120000], share=0.4)
+        c.run_vx_unit('c01-blocks', src, 'asan', ['--mode', 'rt', '--set', 'blocks', '--D', 1, '--exec-timeout', 60000], share=0.4)
         c.run_vx_unit('c01-ab', src, 'asan', ['--mode', 'rt', '--set', 'ab', '--L', 12, '--D', 0], share=0.5)
         c.run_vx_unit('c01-absuffix', src, 'asan', ['--mode', 'rt', '--set', 'absuffix', '--L', 9, '--D', 0], share=0.9)
     c.assumptions = ['inputs outside the shape grammar and windows other than 2^10 / 2^11 / 2^17 are not enumerated',
